@@ -27,7 +27,8 @@ def Justified (fs : FS) (c : Cfg) (_path : Bytes) : Outcome → Prop
     ∃ f suf, p = f ++ suf ∧ (enc, suf) ∈ c.pre ∧ enc ∈ c.accepted ∧
       UnderS c.rootC f ∧ c.hidden f = false ∧ (∃ id0, fs f = .file id0) ∧ fs p = .file id ∧ c.hidden p = false
   | .withEtag o n id =>
-    Justified fs c _path o ∧ ∃ f ext, o.servedName = some f ∧ ext ∈ c.etagExt ∧ n = f ++ ext ∧ fs n = .file id
+    Justified fs c _path o ∧
+      ∃ f ext, o.servedName = some f ∧ ext ∈ c.etagExt ∧ n = f ++ ext ∧ fs n = .file id ∧ c.hidden n = false
 
 theorem notFoundOut_justified (fs : FS) (c : Cfg) (path : Bytes) : Justified fs c path (notFoundOut c) := by
   unfold notFoundOut
@@ -103,8 +104,9 @@ theorem findSidecar_trace (fs : FS) (c : Cfg) (f : Bytes) : ∀ (l : List Bytes)
           · exact Or.inl ⟨a, suf, sidecarSuffix_mem hs, h⟩
           · exact ih n h
 
-theorem findEtag_some (fs : FS) (name : Bytes) : ∀ (exts : List Bytes) (n : Bytes) (id : Nat),
-    (findEtag fs name exts).1 = some (some (n, id)) → ∃ ext, ext ∈ exts ∧ n = name ++ ext ∧ fs n = .file id := by
+theorem findEtag_some (fs : FS) (c : Cfg) (name : Bytes) : ∀ (exts : List Bytes) (n : Bytes) (id : Nat),
+    (findEtag fs c name exts).1 = some (some (n, id)) →
+      ∃ ext, ext ∈ exts ∧ n = name ++ ext ∧ fs n = .file id ∧ c.hidden n = false := by
   intro exts
   induction exts with
   | nil => intro n id h; simp [findEtag] at h
@@ -112,17 +114,21 @@ theorem findEtag_some (fs : FS) (name : Bytes) : ∀ (exts : List Bytes) (n : By
     intro n id h
     unfold findEtag at h
     split at h
-    · rw [withTrace_fst'] at h
-      obtain ⟨ext, h1, h2, h3⟩ := ih n id h
+    · obtain ⟨ext, h1, h2, h3⟩ := ih n id h
       exact ⟨ext, by simp [h1], h2, h3⟩
-    · rename_i id' hf
-      simp at h
-      obtain ⟨rfl, rfl⟩ := h
-      exact ⟨e, by simp, rfl, hf⟩
-    · simp at h
+    · rename_i hh
+      split at h
+      · rw [withTrace_fst'] at h
+        obtain ⟨ext, h1, h2, h3⟩ := ih n id h
+        exact ⟨ext, by simp [h1], h2, h3⟩
+      · rename_i id' hf
+        simp at h
+        obtain ⟨rfl, rfl⟩ := h
+        exact ⟨e, by simp, rfl, hf, by simpa using hh⟩
+      · simp at h
 
-theorem findEtag_none (fs : FS) (name : Bytes) : ∀ (exts : List Bytes),
-    (findEtag fs name exts).1 = none → exts ≠ [] ∧ ∃ n, fs n ≠ .missing ∧ ∀ id, fs n ≠ .file id := by
+theorem findEtag_none (fs : FS) (c : Cfg) (name : Bytes) : ∀ (exts : List Bytes),
+    (findEtag fs c name exts).1 = none → exts ≠ [] ∧ ∃ n, fs n ≠ .missing ∧ ∀ id, fs n ≠ .file id := by
   intro exts
   induction exts with
   | nil => intro h; simp [findEtag] at h
@@ -131,14 +137,16 @@ theorem findEtag_none (fs : FS) (name : Bytes) : ∀ (exts : List Bytes),
     refine ⟨by simp, ?_⟩
     unfold findEtag at h
     split at h
-    · rw [withTrace_fst'] at h
-      exact (ih h).2
-    · simp at h
-    · rename_i h1 h2
-      exact ⟨name ++ e, h1, h2⟩
+    · exact (ih h).2
+    · split at h
+      · rw [withTrace_fst'] at h
+        exact (ih h).2
+      · simp at h
+      · rename_i h1 h2
+        exact ⟨name ++ e, h1, h2⟩
 
-theorem findEtag_trace (fs : FS) (name : Bytes) : ∀ (exts : List Bytes) (n : Bytes),
-    n ∈ (findEtag fs name exts).2 → ∃ ext, ext ∈ exts ∧ n = name ++ ext := by
+theorem findEtag_trace (fs : FS) (c : Cfg) (name : Bytes) : ∀ (exts : List Bytes) (n : Bytes),
+    n ∈ (findEtag fs c name exts).2 → ∃ ext, ext ∈ exts ∧ n = name ++ ext := by
   intro exts
   induction exts with
   | nil => intro n h; simp [findEtag] at h
@@ -146,13 +154,16 @@ theorem findEtag_trace (fs : FS) (name : Bytes) : ∀ (exts : List Bytes) (n : B
     intro n h
     unfold findEtag at h
     split at h
-    · simp [withTrace] at h
-      rcases h with h | h
-      · exact ⟨e, by simp, h⟩
-      · obtain ⟨ext, h1, h2⟩ := ih n h
-        exact ⟨ext, by simp [h1], h2⟩
-    · simp at h; exact ⟨e, by simp, h⟩
-    · simp at h; exact ⟨e, by simp, h⟩
+    · obtain ⟨ext, h1, h2⟩ := ih n h
+      exact ⟨ext, by simp [h1], h2⟩
+    · split at h
+      · simp [withTrace] at h
+        rcases h with h | h
+        · exact ⟨e, by simp, h⟩
+        · obtain ⟨ext, h1, h2⟩ := ih n h
+          exact ⟨ext, by simp [h1], h2⟩
+      · simp at h; exact ⟨e, by simp, h⟩
+      · simp at h; exact ⟨e, by simp, h⟩
 
 theorem withEtagOf_justified {fs : FS} {c : Cfg} (path name : Bytes) (o : Outcome)
     (ho : Justified fs c path o) (hn : o.servedName = some name) :
@@ -160,20 +171,20 @@ theorem withEtagOf_justified {fs : FS} {c : Cfg} (path name : Bytes) (o : Outcom
   unfold withEtagOf
   split
   · rename_i t he
-    have : (findEtag fs name c.etagExt).1 = none := by rw [he]
-    obtain ⟨h1, n, h2, h3⟩ := findEtag_none fs name c.etagExt this
+    have : (findEtag fs c name c.etagExt).1 = none := by rw [he]
+    obtain ⟨h1, n, h2, h3⟩ := findEtag_none fs c name c.etagExt this
     exact ⟨n, Or.inr ⟨h1, h2, h3⟩⟩
   · exact ho
   · rename_i n id t he
-    have : (findEtag fs name c.etagExt).1 = some (some (n, id)) := by rw [he]
-    obtain ⟨ext, h1, h2, h3⟩ := findEtag_some fs name c.etagExt n id this
-    exact ⟨ho, name, ext, hn, h1, h2, h3⟩
+    have : (findEtag fs c name c.etagExt).1 = some (some (n, id)) := by rw [he]
+    obtain ⟨ext, h1, h2, h3, h4⟩ := findEtag_some fs c name c.etagExt n id this
+    exact ⟨ho, name, ext, hn, h1, h2, h3, h4⟩
 
 theorem withEtagOf_trace {fs : FS} {c : Cfg} (name : Bytes) (o : Outcome) :
     ∀ n ∈ (withEtagOf fs c name o).2, ∃ ext, ext ∈ c.etagExt ∧ n = name ++ ext := by
   intro n hn
   unfold withEtagOf at hn
-  split at hn <;> (rename_i he; exact findEtag_trace fs name c.etagExt n (by rw [he]; exact hn))
+  split at hn <;> (rename_i he; exact findEtag_trace fs c name c.etagExt n (by rw [he]; exact hn))
 
 theorem withEtagOf_ne_redirect {fs : FS} {c : Cfg} (name : Bytes) (o : Outcome) (x : Option Bytes)
     (ho : o ≠ .redirect x) : (withEtagOf fs c name o).1 ≠ .redirect x := by
